@@ -149,9 +149,12 @@ class Report:
         if self.undecided:
             lines.append(f"UNDECIDED ({len(self.undecided)}): " + "; ".join(self.undecided[:6]))
         code = 1 if violations else 0
+        if error is None and self.undecided and not violations:
+            # an obligation the analysis could not decide is neither a pass nor a violation
+            error = f"{len(self.undecided)} obligation(s) undecided: " + "; ".join(self.undecided[:3])
         if error is not None:
             lines.append(f"ANALYSIS-ERROR property={self.prop} {error}")
-            code = 2
+            code = 2 if not violations else 1
         wall = time.time() - self.t0
         if write_evidence:
             self._write_evidence(wall, len(violations), known_hit, error)
